@@ -9,6 +9,26 @@ COMMON_NOTE = ("Trusted: Coq 8.16.1 kernel; extraction with ExtrOcamlBasic only 
                "the radix-tree library, flock(2), goroutine scheduling. See DESIGN.md section 5.")
 
 CHECKS = {
+ 'C08': dict(text="Partial. Proved (Coq) for the transition system of Conc.v - the locking protocol of log.go: Publish cut at writerMu.Lock / "
+                  "rollover swap under readersMu.Lock / index.append / Unlock; every read cut at RLock / reading the writing segment / "
+                  "reading the other segments (either order) / RUnlock; Delete cut at deleteMu.Lock / findDeleteReader / the writerMu "
+                  "check / Rewrite (no lock held) / re-validation (count check, retry after rollover) and swap / Unlock; any number of "
+                  "threads, every interleaving - by an invariant preserved by every step: the linearization events (each appended by a "
+                  "step of the call itself, so between its invocation and return), replayed against the sequential specification, are "
+                  "all allowed by it and yield exactly the shared state (linearizability); every completed read returned the "
+                  "specification's answer at its linearization point although it reads the writing segment and the others at different "
+                  "moments; publishers get disjoint consecutive ranges; a message disappears only through a Delete that reports it; a "
+                  "stale Rewrite snapshot is never swapped in; at most one call inside writerMu / deleteMu, swaps only without readers. "
+                  "Not expressible in the model: Go's memory model and the atomicity of the lock primitives themselves (data-race "
+                  "freedom is decided by the race detector), reader-internal locks (indexMu, messagesMu, GC), Stat. The model is tied to "
+                  "/repo by pause points (tag verif): ~1500 (thorough 20000) placements of one or two calls inside the windows "
+                  "publish.written / publish.rolled / delete.found / delete.synced / delete.rewritten of a held call on 1-4 segment logs - "
+                  "the implementation's outcome (results of all calls, live messages, NextOffset) must be among the outcomes the extracted "
+                  "model allows for that placement (unique for 70%); plus ~3000 placements and free-running 2-8 goroutine mixes under "
+                  "-race whose recorded histories are checked for linearizability (porcupine) as supporting search.",
+             ref='6/C08', technique='Coq proof (inductive invariant of a small-step model of the lock protocol; linearizability by refinement, all interleavings) + pause-point placements on the real log',
+             note="Data-race freedom of the Go code is not a theorem: it is checked by the race detector on the concurrent runs. "
+                  "Reader-internal synchronisation (lazy load/unload, GC) and Stat are outside the model. " + COMMON_NOTE),
  'C20': dict(text="Partial. Proved (Coq) on the segment-list model (Backup.v: every segment file of the source copied under its name into the "
                   "target, files the source does not name left alone; a skipped copy has the same content): a backup into an empty "
                   "directory, or repeated into a directory all of whose file names still exist in the source, is the source directory "
